@@ -23,12 +23,14 @@ GRAMMARS = {
     'two_leftrec_rules': [('start', S(C('e'), EOF_)), ('e', A(S(C('e'), T('+'), C('m')), C('m'))), ('m', A(S(C('m'), T('*'), T('x')), T('x')))],
     'prefix_unary': [('start', S(C('e'), EOF_)), ('e', A(S(C('e'), T('-'), C('u')), C('u'))), ('u', A(S(T('-'), C('u')), T('x')))],
     'cut_in_leftrec': [('start', S(C('e'), EOF_)), ('e', A(S(C('e'), T('+'), ('cut',), C('t')), C('t'))), ('t', A(T('x'), S(T('('), ('cut',), C('e'), T(')'))))],
+    # two cycles through a hub rule that is not the alphabetically smallest rule of the component
+    'hub': [('start', S(C('p'), EOF_)), ('a', S(C('p'), T('.'), T('x'))), ('p', A(C('a'), C('i'), T('x'))), ('i', S(C('p'), T('['), T('x'), T(']')))],
     'postfix_and_binary': [('start', S(C('e'), EOF_)), ('e', A(S(C('e'), T('+'), C('p')), C('p'))), ('p', A(S(C('p'), T('*')), T('x')))],
 }
-QUICK = ['direct', 'two_ops', 'aliased', 'mutual', 'optprefix', 'named', 'rightrec', 'noeof', 'leftrec_start', 'three_cycle', 'cut_in_leftrec']
+QUICK = ['direct', 'two_ops', 'aliased', 'mutual', 'optprefix', 'named', 'rightrec', 'noeof', 'leftrec_start', 'three_cycle', 'cut_in_leftrec', 'hub']
 SETTINGS = {'nameguard': False, 'whitespace': ''}
 REFSET = {'nameguard': False, 'whitespace': None}
-WARM = ['', 'x', 'x+x', '(x)', 'x+', '+x', '(x', 'x+x+x', '((x))', 'x*x', '-x', 'x-x', 'x+*', 'x*+', 'x+x*x', 'xx', 'x+-x', 'x*', 'x+x*']
+WARM = ['', 'x', 'x.x', 'x[x]', 'x.x.x', 'x[x', 'x+x', '(x)', 'x+', '+x', '(x', 'x+x+x', '((x))', 'x*x', '-x', 'x-x', 'x+*', 'x*+', 'x+x*x', 'xx', 'x+-x', 'x*', 'x+x*']
 BUDGET = {0: 40, 1: 40, 2: 60, 3: 200, 4: 900, 5: 2400, 6: 3600}
 
 
